@@ -124,6 +124,10 @@ class Run(RunBase):
         if k == "add_batch":
             return all(x in self.pool for x in op["keys"]) and len(ids) == len(op["keys"]) >= 2 and \
                 not (ids & set(self.present))
+        if k == "replace_geometry":
+            return op["key"] in self.pool and op["key"].startswith("x") and self.pool[op["key"]]["id"] in self.present
+        if k == "add_deferred":
+            return op["key"] in self.pool and self.pool[op["key"]]["id"] not in self.present
         if k == "move":
             return bool(self.present)
         if k == "add_copy":
@@ -179,6 +183,12 @@ class Run(RunBase):
             return  # a network on which no construction route ran yet has no index at all
         if len(points) == 1:
             points = list(points) * 2  # Lanelet.contains_points wants a polyline (>= 2 points)
+        lat = {i: geom.lattice_ring(ring) for i, (_, ring) in polys.items()}
+        if self._index_deferred():
+            # the caller has asked for the index to be brought up to date later: only the index-free answer is checked
+            self.probe("index-deferred:only-index-free-answers-checked")
+            self._check_contains(points, polys, lat)
+            return
         try:
             self._form = getattr(self, "_form", 0) + 1
             if self._form % 3 == 0:
@@ -191,7 +201,6 @@ class Run(RunBase):
         res = [list(x) for x in res_raw]
         for x in res_raw:
             x.append(-7)  # the caller may do what it likes with the returned lists: later answers must not care
-        lat = {i: geom.lattice_ring(ring) for i, (_, ring) in polys.items()}
         for p, got in zip(points, res):
             pl = geom.on_lattice(p)
             truth = {i: geom.point_in_ring(poly, ring, p, exact=pl and lat[i]) for i, (poly, ring) in polys.items()}
@@ -212,6 +221,12 @@ class Run(RunBase):
                        np.array_equal(self.present[a]["right"], self.present[b]["right"])
                        for a in inside for b in inside if a < b):
                     self.probe("coincident-lanelets")
+        self._check_contains(points, polys, lat)
+
+    def _index_deferred(self):
+        return id(self.net) in getattr(self, "_deferred_nets", set())
+
+    def _check_contains(self, points, polys, lat):
         arr = np.array([[float(p[0]), float(p[1])] for p in points])
         for la in self.net.lanelets:
             poly, ring = polys[la.lanelet_id]
@@ -227,7 +242,7 @@ class Run(RunBase):
         shape = build.build_shape(shape_spec) if shape is None else shape
         raw = geom.raw_shape(shape)
         self._check_shape_semantics(shape, raw)
-        if self.route == "empty" and not self.present:
+        if (self.route == "empty" and not self.present) or self._index_deferred():
             return  # a network on which no construction route ran yet has no index at all
         try:
             got_raw = self.net.find_lanelet_by_shape(shape)
@@ -404,6 +419,11 @@ class Run(RunBase):
         if getattr(self, "_deferred", None) is not None:
             raise self._deferred
         k = op["op"]
+        if k in ("add_one", "scenario_add", "add_from_network", "add_batch", "remove", "scenario_add_list", "move",
+                 "add_copy", "replace_geometry"):
+            # (routes that put a NEW network in place - restart, cut-out, create_from_list - leave the flag on the old
+            # object, which may live on as the kept original)
+            getattr(self, "_deferred_nets", set()).discard(id(self.net))  # all of these bring the index up to date
         out = getattr(self, "_op_" + k)(op)
         if k not in ("q_pos", "q_shape", "panel", "swap") and (self.cfg["panel_after_mutation"] or k == "bystander"):
             self._panel()
@@ -515,6 +535,35 @@ class Run(RunBase):
                                                "right": np.array(la.right_vertices, dtype=float)}
         return "ok"
 
+    def _op_replace_geometry(self, op):
+        """A lanelet is replaced by ANOTHER lanelet carrying the same id (a map correction): removed with rtree=False,
+        the new one added right away (which rebuilds the index)."""
+        new = self.pool[op["key"]]
+
+        def f():
+            self.net.remove_lanelet(new["id"], rtree=False)
+            self.net.add_lanelet(build.build_lanelet(new))
+        la = self.net.find_lanelet_by_id(new["id"])
+        if la is not None:
+            c = la.center_vertices
+            self.ghosts = (getattr(self, "ghosts", []) + [tuple((c[0] + c[1]) / 2)])[-8:]
+        self._route("remove_lanelet(rtree=False)+add_lanelet(other geometry, same id)", f)
+        self._expect(new)
+        return "ok"
+
+    def _op_add_deferred(self, op):
+        """add_lanelet(..., rtree=False) and nothing else: the documented mode in which the spatial index is brought up
+        to date LATER.  Until then only the answers that do not come from the index are checked (obstacle mapping,
+        Lanelet.contains_points); the next operation that rebuilds the index ends this state."""
+        s_ = self.pool[op["key"]]
+        self._route("add_lanelet[rtree=False, index deferred]", lambda: self.net.add_lanelet(build.build_lanelet(s_),
+                                                                                             rtree=False))
+        self._expect(s_)
+        if not hasattr(self, "_deferred_nets"):
+            self._deferred_nets = set()
+        self._deferred_nets.add(id(self.net))
+        return "ok"
+
     def _op_add_copy(self, op):
         """A lanelet derived from one that is in the network: a deep copy that gets an id of its own through the
         public setter (a bus lane on top of a driving lane) and is added next to its source."""
@@ -555,6 +604,8 @@ class Run(RunBase):
         for i in gone:
             self.present.pop(i)
             self.sc_known.discard(i)
+        if gone:
+            getattr(self, "_deferred_nets", set()).discard(id(self.net))  # a completed removal rebuilt the index
         if raised and gone:
             self.probe("list-removal-interrupted")
         return {"raised": raised, "gone": gone}
@@ -800,6 +851,11 @@ def _builder(rng, run, cfg):
         elif r in ("add_one", "remove", "add_batch") and run.present and not run.universe.get("lattice") \
                 and rng.chance(0.12):
             yield {"op": "move", "d": [rng.uniform(-30, 30), rng.uniform(-30, 30)], "a": rng.uniform(-3.0, 3.0)}
+        elif r == "add_clash" and run.present and rng.chance(0.4):
+            xs = [k for k in all_keys if k.startswith("x") and run.pool[k]["id"] in run.present]
+            yield {"op": "replace_geometry", "key": rng.pick(xs)} if xs else None
+        elif r == "add_batch" and free and rng.chance(0.3):
+            yield {"op": "add_deferred", "key": rng.pick(free)}
         elif r == "add_one" and run.present and rng.chance(0.3):
             n_copy += 1
             op = {"op": "add_copy", "id": rng.pick(sorted(run.present)), "new_id": 5000 + n_copy}
@@ -928,6 +984,8 @@ class C06(Property):
                        "continued-on-the-other-copy", "lattice-point-exactly-on-a-lanelet-border",
                        "lattice-shape-exactly-tangent-to-a-lanelet", "bystander-draw", "bystander-derive",
                        "second-network-with-other-lanelet-ids", "route:Scenario.add_objects([.., refused])", "bounding-box-decoy-group", "list-removal-interrupted", "route:add_lanelet(deep copy with a new id)", "route:translate_rotate",
+                       "route:remove_lanelet(rtree=False)+add_lanelet(other geometry, same id)",
+                       "route:add_lanelet[rtree=False, index deferred]", "index-deferred:only-index-free-answers-checked",
                        "bystander-edit-returned-lists"]
     assumptions = [
         "geometric truth comes from crkit.geom (raw vertices / parameters, shapely predicates on geometry built there) "
